@@ -89,6 +89,8 @@ def rule_err_pass(ctx):
     bm = models.builder_model(facts)
     body = bm["body"]
     key = bm["key"]
+    nfin = len([r for r in bm["rejections"] if r["kind"] == "propagate" and r["callee"] == "PurlShape::finish"])
+    ctx.ob("ERR-PASS", "build() has one exit that hands the hook's error on", nfin == 1, fn=key, site=fn_site(facts, key), detail="%d propagation sites for PurlShape::finish" % nfin)
     for r in bm["rejections"]:
         if r["kind"] == "propagate" and r["callee"] == "PurlShape::finish":
             t = body.term(r["bb"])
